@@ -118,7 +118,64 @@ func runC08(c *Ctx) {
 				if !seen {
 					c.Unk("C08.L1-hook-slot-in-region", key, pos, "write not reached by the lockset analysis")
 				} else {
-					c.Check(heldHas(h, ".syncMutex") && heldHas(h, "scopedBlockHookMutex"), "C08.L1-hook-slot-in-region", key, pos,
+					inRegion := heldHas(h, ".syncMutex")
+					if !inRegion && heldHas(h, "scopedBlockHookMutex") {
+						// the write sits in a small helper of the sync routine ("set the hook", "clear the hook"): then
+						// every call of the helper lies in the region — a plain call with syncMutex held, or a deferred
+						// call registered while it is held and not followed by a deferred Unlock of syncMutex (which,
+						// last in, would run first)
+						if obj := fn.Obj; obj != nil && !obj.Exported() {
+							nCalls, allIn := 0, true
+							for _, g := range c.Funcs(dagsyncPkg) {
+								for _, b := range all[g.Name] {
+									var defers []*ast.DeferStmt
+									ownInspect(b.Body, func(m ast.Node) bool {
+										if d, ok := m.(*ast.DeferStmt); ok {
+											defers = append(defers, d)
+										}
+										return true
+									})
+									ownInspect(b.Body, func(m ast.Node) bool {
+										call, ok := m.(*ast.CallExpr)
+										if !ok {
+											return true
+										}
+										sel, ok := call.Fun.(*ast.SelectorExpr)
+										if !ok || p.TypesInfo.ObjectOf(sel.Sel) != types.Object(obj) {
+											return true
+										}
+										nCalls++
+										var at ast.Node = call
+										var deferred *ast.DeferStmt
+										for _, d := range defers {
+											if d.Call == call {
+												at, deferred = d, d
+											}
+										}
+										if hh, ok := b.HeldAt[at]; !ok || !heldHas(hh, ".syncMutex") {
+											allIn = false
+										}
+										if deferred != nil {
+											for _, d := range defers {
+												if d.Pos() > deferred.Pos() {
+													if us, isSel := d.Call.Fun.(*ast.SelectorExpr); isSel && us.Sel.Name == "Unlock" {
+														if mx, isMx := ast.Unparen(us.X).(*ast.SelectorExpr); isMx {
+															if v, isVar := p.TypesInfo.ObjectOf(mx.Sel).(*types.Var); isVar && v.IsField() && canonField(v) == "syncMutex" {
+																allIn = false
+															}
+														}
+													}
+												}
+											}
+										}
+										return true
+									})
+								}
+							}
+							inRegion = nCalls > 0 && allIn
+						}
+					}
+					c.Check(inRegion && heldHas(h, "scopedBlockHookMutex"), "C08.L1-hook-slot-in-region", key, pos,
 						"slot written with syncMutex and scopedBlockHookMutex held", "per-publisher hook slot written outside the sync critical section or without its mutex: hooks of two syncs can interleave")
 				}
 				return true
